@@ -103,6 +103,22 @@ def record_everything(chk, quick, rng):
             sim.compute_stable_timestep()
             if cfg["sim"] == "ns3":
                 sim.get_vorticity_divergence_l2_norm()
+        # (2b) generators that no simulator calls: Brinkmann penalisation, characteristic function, boundary damping, complex product
+        g = kernels.spne()
+        a2, a3 = rng.normal(size=(6, 7)), rng.normal(size=(5, 6, 7))
+        for D, a in ((2, a2), (3, a3)):
+            getattr(g, f"gen_brinkmann_penalise_pyst_kernel_{D}d")(real_t=np.float64)(
+                penalised_field=a.copy(), field=a.copy(), char_field=np.abs(a), penalty_field=a.copy(), penalty_factor=2.0)
+            getattr(g, f"gen_brinkmann_penalise_pyst_kernel_{D}d")(real_t=np.float64, field_type="vector")(
+                penalised_vector_field=np.stack([a] * D), penalty_factor=2.0, char_field=np.abs(a), penalty_vector_field=np.stack([a] * D) * 2,
+                vector_field=np.stack([a] * D) * 3)
+            getattr(g, f"gen_char_func_from_level_set_via_sine_heaviside_pyst_kernel_{D}d")(blend_width=0.5, real_t=np.float64)(
+                char_func_field=a.copy(), level_set_field=a.copy())
+        g.gen_brinkmann_penalise_vs_fixed_val_pyst_kernel_2d(real_t=np.float64)(penalised_field=a2.copy(), field=a2.copy(), char_field=np.abs(a2),
+                                                                                 penalty_factor=2.0, penalty_val=1.0)
+        # in-place use (output = input field) is how the experimental Brinkmann forcing penalises the velocity
+        b2 = a2.copy()
+        g.gen_brinkmann_penalise_pyst_kernel_2d(real_t=np.float64)(penalised_field=b2, field=b2, char_field=np.abs(a2), penalty_field=a2.copy(), penalty_factor=2.0)
         # (3) coupling: the reset kernel of the virtual-boundary forcing
         from sopht.numeric.immersed_boundary_ops import VirtualBoundaryForcing
 
@@ -114,6 +130,24 @@ def record_everything(chk, quick, rng):
             vb.compute_interaction_forcing(eul_grid_forcing_field=frc, eul_grid_velocity_field=vel, lag_grid_position_field=pos, lag_grid_velocity_field=np.zeros((D, 2)))
     finally:
         shim.CALL_HOOKS.remove(hook)
+
+
+def static_definitions(chk):
+    """kernel-DEFINITION level: every stencil captured from every generator writes only the centre cell of its outputs and reads a
+    field it writes only at the centre (so no cell's update reads what another cell's update writes)."""
+    bad = []
+    for p in shim.KERNELS:
+        wn = {n for n, _ in p.writes}
+        for n, offs in p.writes:
+            if any(o != 0 for o in offs):
+                bad.append((p.origin, f"writes {n} at offset {offs}"))
+        for n, offs in p.reads:
+            if n in wn and any(o != 0 for o in offs):
+                bad.append((p.origin, f"reads its own output {n} at offset {offs}"))
+    chk.extra["kernel_definitions_checked"] = len(shim.KERNELS)
+    chk.traces += len(shim.KERNELS)
+    for origin, what in sorted(set(bad)):
+        chk.violation({"kind": "kernel_definition", "origin": origin}, f"stencil from {origin} {what}: its result depends on the iteration order")
 
 
 def thread_independence(chk, quick, rng):
@@ -188,6 +222,7 @@ def run(chk: core.Check):
         validate_trace(chk, cor, "binding self-test (corrupted event)", expect_reject=True)
     # ---- bit-identity across thread counts -----------------------------------------------------------
     thread_independence(chk, quick, rng)
+    static_definitions(chk)
     from .c07 import serial_spreading
 
     bad = serial_spreading()
